@@ -16,6 +16,8 @@ def replay(ob):
         return HEAD + "main(['ovr_addzero'])\n"
     if "does_not_fire_on_an_overridable_initializer" in n:
         return HEAD + "main(['ovr_minmax'])\n"
+    if "ScatterAllStatic.fires_only_without_a_reduction" in n:
+        return HEAD + "main(['scatter_reduction'])\n"
     if "FuseBatchNorm" in n:
         return HEAD + "main(['batchnorm'])\n"
     if "FuseSuccessiveClip." in n and "raises" not in n:
